@@ -130,11 +130,11 @@ var c02 = Register("C02", "C02.mulquo", func(a c02Args) *Violation {
 func steerExps(t *rapid.T, quo bool, dx, dy int) (int, int) {
 	ex := genExp(t)
 	var target int // desired decimal exponent of the leading digit of the result
-	switch rapid.IntRange(0, 4).Draw(t, "steer") {
+	switch ir(t, 0, 4, "steer") {
 	case 0:
-		target = rapid.IntRange(-6215, -6135).Draw(t, "lowTarget")
+		target = ir(t, -6215, -6135, "lowTarget")
 	case 1:
-		target = rapid.IntRange(6100, 6150).Draw(t, "highTarget")
+		target = ir(t, 6100, 6150, "highTarget")
 	case 2:
 		target = genNear(t, 5, -6177, -6176, -6143, 6144, 6145, 6111)
 	default:
@@ -165,9 +165,9 @@ func pow(b int64, k int) *big.Int { return new(big.Int).Exp(bi(b), bi(int64(k)),
 // oddIn draws an odd integer w with lo < w <= hi.
 func oddIn(t *rapid.T, lo, hi *big.Int) *big.Int {
 	span := new(big.Int).Sub(hi, lo)
-	r := new(big.Int).SetUint64(rapid.Uint64().Draw(t, "w0"))
+	r := new(big.Int).SetUint64(u64(t, "w0"))
 	r.Lsh(r, 64)
-	r.Or(r, new(big.Int).SetUint64(rapid.Uint64().Draw(t, "w1")))
+	r.Or(r, new(big.Int).SetUint64(u64(t, "w1")))
 	r.Mod(r, span)
 	r.Add(r, lo)
 	r.Add(r, ref.One)
@@ -185,27 +185,27 @@ func genMulQuoPair(t *rapid.T) (D, D, bool) {
 	quo := rapid.Bool().Draw(t, "quo")
 	twoCmax := new(big.Int).Lsh(ref.Cmax, 1)
 	wLo := new(big.Int).Quo(twoCmax, ref.Ten)
-	kind := rapid.IntRange(0, 9).Draw(t, "pairKind")
+	kind := ir(t, 0, 9, "pairKind")
 	var cx, cy *big.Int
 	switch {
 	case kind <= 2:
 		cx, cy = genCoef(t), genCoef(t)
 	case kind == 3:
 		// both coefficients below 2^64 (fast paths), including near 2^64
-		cx = new(big.Int).SetUint64(rapid.Uint64().Draw(t, "cx64"))
-		cy = new(big.Int).SetUint64(rapid.Uint64().Draw(t, "cy64"))
+		cx = new(big.Int).SetUint64(u64(t, "cx64"))
+		cy = new(big.Int).SetUint64(u64(t, "cy64"))
 		if rapid.Bool().Draw(t, "smallDiv") {
-			cy = bi(int64(rapid.IntRange(1, 1000).Draw(t, "cySmall")))
+			cy = bi(int64(ir(t, 1, 1000, "cySmall")))
 		}
 	case kind <= 5 && !quo:
 		// exact tie product: x = 5^k u, y = 2^(k-1) v, u v odd with 34..35 digits
-		k := rapid.IntRange(1, 40).Draw(t, "k")
+		k := ir(t, 1, 40, "k")
 		p5, p2 := pow(5, k), pow(2, k-1)
 		uMax := new(big.Int).Quo(ref.Cmax, p5)
 		vMax := new(big.Int).Quo(ref.Cmax, p2)
 		w := oddIn(t, wLo, twoCmax) // target size of u*v
 		// pick u then v ~ w/u (both odd)
-		u := new(big.Int).SetUint64(rapid.Uint64().Draw(t, "u"))
+		u := new(big.Int).SetUint64(u64(t, "u"))
 		u.Mod(u, uMax)
 		u.Or(u, ref.One)
 		if u.Cmp(uMax) > 0 {
@@ -222,7 +222,7 @@ func genMulQuoPair(t *rapid.T) (D, D, bool) {
 		}
 		cx = new(big.Int).Mul(p5, u)
 		cy = new(big.Int).Mul(p2, v)
-		if d := rapid.IntRange(-1, 3).Draw(t, "perturb"); d < 0 {
+		if d := ir(t, -1, 3, "perturb"); d < 0 {
 			cy.Add(cy, ref.One) // near-miss of the tie
 		}
 		if rapid.Bool().Draw(t, "swap") {
@@ -231,15 +231,15 @@ func genMulQuoPair(t *rapid.T) (D, D, bool) {
 	case kind <= 5 && quo:
 		// terminating quotients: divisor 2^a 5^b; exact ties for y = 2^a, x = 2^(a-1) w
 		if rapid.Bool().Draw(t, "tieCtor") {
-			aexp := rapid.IntRange(1, 3).Draw(t, "a")
+			aexp := ir(t, 1, 3, "a")
 			hi := new(big.Int).Quo(ref.Cmax, pow(2, aexp-1))
 			w := oddIn(t, wLo, hi)
 			cx = new(big.Int).Mul(pow(2, aexp-1), w)
 			cy = pow(2, aexp)
-			cy.Mul(cy, ref.Pow10(rapid.IntRange(0, 20).Draw(t, "z")))
+			cy.Mul(cy, ref.Pow10(ir(t, 0, 20, "z")))
 		} else {
-			aexp := rapid.IntRange(0, 60).Draw(t, "a")
-			bexp := rapid.IntRange(0, 40).Draw(t, "b")
+			aexp := ir(t, 0, 60, "a")
+			bexp := ir(t, 0, 40, "b")
 			cy = new(big.Int).Mul(pow(2, aexp), pow(5, bexp))
 			for cy.Cmp(ref.Cmax) > 0 {
 				cy.Rsh(cy, 1)
@@ -248,18 +248,18 @@ func genMulQuoPair(t *rapid.T) (D, D, bool) {
 		}
 	case kind <= 7 && quo:
 		// hard near-tie quotient: x/y*10^s = cr + 1/2 - delta/(2y)
-		dy := rapid.IntRange(1, 30).Draw(t, "dy")
+		dy := ir(t, 1, 30, "dy")
 		yv := genDigits(t, dy)
-		last := []int64{1, 3, 7, 9}[rapid.IntRange(0, 3).Draw(t, "ylast")]
+		last := []int64{1, 3, 7, 9}[ir(t, 0, 3, "ylast")]
 		yv.Sub(yv, new(big.Int).Mod(yv, ref.Ten))
 		yv.Add(yv, bi(last))
-		s := dy + rapid.IntRange(0, 2).Draw(t, "sExtra")
+		s := dy + ir(t, 0, 2, "sExtra")
 		if s > 33 {
 			s = 33
 		}
 		mod := new(big.Int).Mul(ref.Two, ref.Pow10(s))
 		inv := new(big.Int).ModInverse(yv, mod)
-		delta := bi(int64(2*rapid.IntRange(-3, 3).Draw(t, "delta") + 1))
+		delta := bi(int64(2*ir(t, -3, 3, "delta") + 1))
 		w := oddIn(t, wLo, twoCmax)
 		want := new(big.Int).Mul(delta, inv)
 		want.Mod(want, mod)
@@ -280,13 +280,13 @@ func genMulQuoPair(t *rapid.T) (D, D, bool) {
 		}
 	case kind <= 7 && rapid.Bool().Draw(t, "nearTieMul"):
 		// hard near-tie product: x*y = cr*10^k + 5*10^(k-1) + delta
-		k := rapid.IntRange(1, 25).Draw(t, "k")
-		dy := rapid.IntRange(k+1, 30).Draw(t, "dy")
+		k := ir(t, 1, 25, "k")
+		dy := ir(t, k+1, 30, "dy")
 		yv := genDigits(t, dy)
 		yv.Sub(yv, new(big.Int).Mod(yv, ref.Ten))
-		yv.Add(yv, bi([]int64{1, 3, 7, 9}[rapid.IntRange(0, 3).Draw(t, "ylast")]))
+		yv.Add(yv, bi([]int64{1, 3, 7, 9}[ir(t, 0, 3, "ylast")]))
 		base := new(big.Int).Mul(big5, ref.Pow10(k-1))
-		base.Add(base, bi(int64(rapid.IntRange(-3, 3).Draw(t, "delta"))))
+		base.Add(base, bi(int64(ir(t, -3, 3, "delta"))))
 		inv := new(big.Int).ModInverse(new(big.Int).Mod(ref.Pow10(k), yv), yv)
 		if inv == nil {
 			cx, cy = genCoef(t), yv
@@ -315,9 +315,9 @@ func genMulQuoPair(t *rapid.T) (D, D, bool) {
 	case kind <= 7:
 		// products around the 34/35-digit boundary and 2^64 word boundaries
 		cx = genCoef(t)
-		target := new(big.Int).Add(ref.Cmax, bi(int64(rapid.IntRange(-3, 3).Draw(t, "off"))))
+		target := new(big.Int).Add(ref.Cmax, bi(int64(ir(t, -3, 3, "off"))))
 		if rapid.Bool().Draw(t, "tenfold") {
-			target.Mul(target, ref.Pow10(rapid.IntRange(1, 34).Draw(t, "scale")))
+			target.Mul(target, ref.Pow10(ir(t, 1, 34, "scale")))
 		}
 		if cx.Sign() == 0 {
 			cx = bi(7)
@@ -327,7 +327,7 @@ func genMulQuoPair(t *rapid.T) (D, D, bool) {
 	case kind == 8:
 		// zero operands
 		cx, cy = genCoef(t), genCoef(t)
-		switch rapid.IntRange(0, 2).Draw(t, "whichZero") {
+		switch ir(t, 0, 2, "whichZero") {
 		case 0:
 			cx = new(big.Int)
 		case 1:
